@@ -166,7 +166,9 @@ func (t *Typedef) resolve(d *typeDictionary) []error {
 // cannot be resolved then one or more errors are returned.
 func (t *Type) resolve(d *typeDictionary) (errs []error) {
 	if t.YangType != nil {
-		return nil
+		// Resolved before. Whatever was wrong with it then still is:
+		// a second run must not come out clean.
+		return t.resolveErrs
 	}
 
 	// If t.Name is a base type then td will not be nil, otherwise
@@ -232,6 +234,7 @@ check:
 
 	y.Base = td.Type
 	t.YangType = &y
+	defer func() { t.resolveErrs = errs }()
 
 	if v := t.RequireInstance; v != nil {
 		b, err := v.asBool()
